@@ -24,7 +24,8 @@ Not decided: equality of the values after a round trip (needs the run-time conte
 import os
 import re
 
-from rkstatic.x_linform import Poly, Evaluator, implies_le, negate, show, show_rel, relation, upper_bound, lower_bound
+from rkstatic.x_linform import (Poly, Evaluator, implies_le, negate, show, show_rel, relation, upper_bound, lower_bound,
+                                small_model, atom_name)
 
 LEVEL = 'other'
 EXPLANATION = (
@@ -99,17 +100,20 @@ def is_ptr(v):
 class BufEngine:
     """Propagates normal forms along every path of a loop-free member function."""
 
-    def __init__(self, tu, f, depth=0):
+    def __init__(self, tu, f, depth=0, objparam=None, objrec=None):
         self.tu = tu
         self.f = f
         self.depth = depth
+        self.objparam = objparam        # free function working on a reader / writer passed by reference
+        self.objrec = objrec
         self.params = {p['id']: p for p in f.get('params', [])}
         self.signed = {p['name'] for p in f.get('params', []) if p['ct'].replace('const ', '') not in UNSIGNED
                        and not p['ct'].rstrip().endswith('*') and not p['ct'].rstrip().endswith('&')}
         self.buf_obj_alias = set()      # parameters bound to the buffer array itself (helper called with *buffer)
         self.buf_sp_alias = set()       # parameters bound to the shared_ptr holding it
-        rec = tu.records.get(f.get('recid'))
+        rec = tu.records.get(f.get('recid')) if objrec is None else objrec
         self.rec = rec
+        self.recq = rec['q'] if rec else None
         self.buf_field = None
         if rec:
             for fd in rec['fields']:
@@ -118,12 +122,35 @@ class BufEngine:
                     self.buf_field = fd['name']     # the array itself; shared_ptr<...View> members are derived data
 
     # ---- object recognition
+    def is_self(self, e):
+        """does e designate the reader / writer object being analysed (this, *this, or the reference parameter)"""
+        tu = self.tu
+        if e is None:
+            return False
+        if tu.is_this(e):
+            return self.objparam is None
+        x = tu.strip(e, casts=True)
+        if x is not None and x.get('kind') == 'UnaryOperator' and x.get('opcode') == '*' and tu.is_this(tu.kids(x)[0]):
+            return self.objparam is None
+        return self.objparam is not None and x is not None and x.get('kind') == 'DeclRefExpr' and \
+            x.get('referencedDecl', {}).get('id') == self.objparam
+
+    def mos(self, e):
+        """member name if e is a data member of the analysed object"""
+        tu = self.tu
+        if self.objparam is None:
+            return tu.member_of_this(e)
+        x = tu.strip(e)
+        if x is not None and x.get('kind') == 'MemberExpr' and tu.kids(x) and self.is_self(tu.kids(x)[0]):
+            return x.get('name')
+        return None
+
     def is_buf_sp(self, e):
         """is e the shared_ptr member holding the buffer"""
         e = self.tu.strip(e, casts=True)
         if e is None:
             return False
-        if self.buf_field is not None and self.tu.member_of_this(e) == self.buf_field:
+        if self.buf_field is not None and self.mos(e) == self.buf_field:
             return True
         if e.get('kind') == 'DeclRefExpr':
             did = e.get('referencedDecl', {}).get('id')
@@ -178,7 +205,7 @@ class BufEngine:
             return None
 
         def member(n):
-            nm = tu.member_of_this(n)
+            nm = self.mos(n)
             if nm is not None and nm in st.fields:
                 return st.fields[nm]
             return None
@@ -239,7 +266,26 @@ class BufEngine:
         rel = ev.rel(c) if c is not None else None
         res = []
 
+        # the address of a local object is never null
+        c0_, neg0 = c, False
+        while c0_ is not None and c0_.get('kind') == 'UnaryOperator' and c0_.get('opcode') == '!':
+            neg0 = not neg0
+            c0_ = tu.strip(tu.kids(c0_)[0])
+        pv0 = self.val(c0_, st) if c0_ is not None and c0_.get('kind') == 'DeclRefExpr' else None
+        if is_ptr(pv0) and isinstance(pv0[1], tuple) and pv0[1][0] == 'local':
+            return [(1 if neg0 else 0, st.copy())]
+
+        def feasible(s_):
+            for p_, op_ in s_.cons:
+                cv_ = p_.const_value()
+                if cv_ is not None and not (cv_ <= 0 if op_ == '<=' else cv_ == 0 if op_ == '==' else cv_ != 0):
+                    return False
+            return True
+
         def plain(base, rel_):
+            return [(i_, s_) for i_, s_ in plain0(base, rel_) if feasible(s_)]
+
+        def plain0(base, rel_):
             out = []
             for idx in (0, 1):
                 s2 = base.copy()
@@ -325,7 +371,7 @@ class BufEngine:
                 return ('ptr', 'buf', st.bufgen, st.bufsize)
             return None
         # a const member of the analysed class with a body: evaluate it in the current state
-        if obj is not None and tu.is_this(obj) and sd.get('rec') == self.f.get('rec') and self.depth < 3:
+        if obj is not None and self.is_self(obj) and sd.get('rec') == self.recq and self.depth < 3:
             callee = tu.callee_fn(n)
             if callee is not None and callee.get('const') and tu.cfg(callee) is not None and not args:
                 sub = BufEngine(tu, callee, self.depth + 1)
@@ -378,6 +424,8 @@ class BufEngine:
         if k == 'UnaryOperator' and e.get('opcode') == '&':
             # &buffer->operator[](k), &(*buffer)[k], &buffer->at(k)
             x = tu.strip(tu.kids(e)[0], casts=True)
+            if x is not None and x.get('kind') == 'DeclRefExpr' and x.get('referencedDecl', {}).get('id') not in self.params:
+                return ('ptr', ('local', x['referencedDecl']['id'], x['referencedDecl'].get('name', '?')), 0, Poly.const(0))
             if x is not None and x.get('kind') in ('CXXOperatorCallExpr', 'CXXMemberCallExpr'):
                 sd, obj, args = tu.call_parts(x)
                 if obj is not None and self.is_buf_obj(obj) and sd.get('q', '').split('::')[-1] in ('operator[]', 'at') \
@@ -395,7 +443,7 @@ class BufEngine:
         e = tu.strip(e)
         if e is None:
             return None
-        nm = tu.member_of_this(e)
+        nm = self.mos(e)
         if nm is not None:
             return ('field', nm)
         if e.get('kind') == 'DeclRefExpr':
@@ -465,9 +513,17 @@ class BufEngine:
         if k in ('CXXMemberCallExpr', 'CXXOperatorCallExpr'):
             sd_, obj_, args_ = tu.call_parts(n)
             nm_ = sd_.get('q', '').split('::')[-1]
-            m_ = tu.member_of_this(obj_) if obj_ is not None else None
+            m_ = self.mos(obj_) if obj_ is not None else None
             if m_ is not None and m_ != self.buf_field and nm_ in ('operator=', 'reset', 'clear', 'assign', 'swap'):
                 st.events.append(('touch', m_, n['id']))
+        if k == 'CXXMemberCallExpr' and tu.sd(n).get('q', '').split('::')[-1] in ('assign', 'append') and \
+                tu.sd(n).get('q', '').startswith('std::basic_string') and len(tu.call_parts(n)[2]) == 2:
+            a0, a1 = tu.call_parts(n)[2]
+            pv, lv_ = self.val(a0, st), self.val(a1, st)
+            if is_ptr(pv) and pv[1] == 'buf':
+                st.events.append(('memcpy', ('ptr', ('user', tu.show(tu.call_parts(n)[1])), 0, Poly.const(0)), pv, lv_, n['id'],
+                                  st.bufgen, st.bufsize))
+                return None
         if k == 'CXXMemberCallExpr':
             sd, obj, args = tu.call_parts(n)
             name = sd.get('q', '').split('::')[-1]
@@ -484,7 +540,7 @@ class BufEngine:
                                                             'operator[]'):
                     return None
                 raise Undecided('call `%s` on the buffer is not modelled' % tu.show(n))
-            if obj is not None and tu.is_this(obj) and sd.get('rec') == self.f.get('rec'):
+            if obj is not None and self.is_self(obj) and sd.get('rec') == self.recq:
                 callee = tu.callee_fn(n)
                 if callee is None or not callee.get('const'):
                     raise Undecided('call of the non-const member `%s` is not modelled' % tu.show(n))
@@ -582,7 +638,7 @@ class BufEngine:
             return None
         sd, obj, args = tu.call_parts(n)
         if n['kind'] == 'CXXMemberCallExpr':
-            if obj is not None and tu.is_this(obj) and callee.get('rec') == self.f.get('rec') and self.f.get('rec'):
+            if obj is not None and self.is_self(obj) and callee.get('rec') == self.recq and self.recq:
                 return callee
             return None
         if callee['q'].startswith(NET) and not callee.get('rec') and 'operator' not in callee['q'].split('::')[-1]:
@@ -594,7 +650,7 @@ class BufEngine:
         tu = self.tu
         sd, obj, args = tu.call_parts(n)
         sub = BufEngine(tu, callee, self.depth + 1)
-        sub.buf_field = self.buf_field if callee.get('rec') == self.f.get('rec') else None
+        sub.buf_field = self.buf_field if callee.get('rec') == self.recq else None
         sub.signed = self.signed
         s0 = st.copy()
         s0.vars = {}
@@ -620,6 +676,9 @@ class BufEngine:
             r.callvals = dict(st.callvals)
             r.callvals.update({k: v for k, v in s2.callvals.items()})
             r.subs, r.wrap = dict(s2.subs), list(s2.wrap)
+            for e in r.events[n_ev:]:
+                if e[0] == 'memcpy' and is_ptr(e[1]) and isinstance(e[1][1], tuple) and e[1][1][0] == 'local':
+                    r.vars[e[1][1][1]] = Poly.atom(('sym', 'read:' + e[1][1][2]))
             if kind == 'throw':
                 outs.append(('throw', r))
             else:
@@ -684,6 +743,22 @@ class BufEngine:
                 n = tu.node(e[1])
                 if n is None:
                     continue
+                if n.get('kind') == 'CXXMemberCallExpr' and tu.sd(n).get('rec') in ARRAY_RECS and \
+                        tu.sd(n).get('q', '').split('::')[-1] == 'at' and tu.call_parts(n)[1] is not None and \
+                        self.is_buf_obj(tu.call_parts(n)[1]) and len(tu.call_parts(n)[2]) == 1:
+                    # the checked accessor throws for index >= size(): an implicit branch
+                    kv = self.val(tu.call_parts(n)[2][0], st)
+                    if not isinstance(kv, Poly):
+                        raise Undecided('index of `%s` has no normal form' % tu.show(n))
+                    s_thr = st.copy()
+                    s_thr.cons.append((st.bufsize - kv, '<='))
+                    s_thr.events.append(('throw', 'std::runtime_error', n['id']))
+                    outs.append(('throw', s_thr, None))
+                    s_ok = st.copy()
+                    s_ok.cons.append((kv - st.bufsize + 1, '<='))
+                    stack.append((bid, ei + 1, s_ok))
+                    forked = True
+                    break
                 callee = self.inlinable(n)
                 if callee is not None:
                     for kind2, s2 in self.inline_call(n, st, callee):
@@ -798,10 +873,17 @@ def check_access(ctx, tu, f, st, ev, rule, inst, keybase, what):
         ctx.undecided(rule, inst, '%s: path condition contains `%s`, which has no normal form' % (what, st.opaque[0]),
                       tu.loc(nid))
         return False
+    wit = small_model(list(st.cons) + [(p_, '<=') for p_ in st.inv] + [(-need + 1, '<=')])
+    if wit is None:
+        ctx.undecided(rule, inst, '%s of [%s, %s): the path condition (%s) is not recognised as a bound by the buffer size %s'
+                      % (what, show(off), show(off + ln), ' && '.join(show_rel(c) for c in st.cons) or 'true', show(bufsize)),
+                      tu.loc(nid))
+        return False
     ctx.violation(rule, inst, '%s of [%s, %s) is reached on a path whose condition (%s) does not bound it by the buffer '
-                  'size %s' % (what, show(off), show(off + ln), ' && '.join(show_rel(c) for c in st.cons) or 'true',
-                               show(bufsize)), tu.loc(nid),
-                  key='%s|%s|unguarded' % (rule, keybase), path=path_text(tu, g, st))
+                  'size %s, e.g. for %s' % (what, show(off), show(off + ln), ' && '.join(show_rel(c) for c in st.cons) or 'true',
+                                            show(bufsize), ', '.join('%s = %d' % (atom_name(a), v_) for a, v_ in
+                                                                     sorted(wit.items(), key=lambda kv: repr(kv[0])))),
+                  tu.loc(nid), key='%s|%s|unguarded' % (rule, keybase), path=path_text(tu, g, st))
     return False
 
 
@@ -883,7 +965,20 @@ def check_transfer_fn(ctx, tu, f, mode):
                 good = False
             else:
                 v, d, con = implies_le(st.cons, -need0 + 1)
-                if v is None:
+                wit = None
+                if v is None and not st.opaque and not st.wrap:
+                    # the path condition is fully modelled: is there a request that fits and still takes this path?
+                    wit = small_model(list(st.cons) + [(p_, '<=') for p_ in st.inv] + [(need0, '<=')])
+                if wit is not None:
+                    thr = [e for e in st.events if e[0] == 'throw']
+                    ctx.violation(R1, label, 'throws under `%s` although the request fits (`%s <= 0`), e.g. for %s: a request that '
+                                  'fits in the remaining capacity is rejected'
+                                  % (' && '.join(show_rel(c) for c in st.cons), show(need0),
+                                     ', '.join('%s = %d' % (atom_name(a), v_) for a, v_ in sorted(wit.items(), key=lambda kv: repr(kv[0])))),
+                                  tu.loc(thr[-1][2]) if thr else tu.fn_loc(f),
+                                  key='%s|%s|rejects-fitting-request' % (R1, keybase), path=path_text(tu, g, st))
+                    good = False
+                elif v is None:
                     ctx.undecided(R1, label, 'throws under `%s`, which is not the overflow condition `%s > 0` in normal form'
                                   % (' && '.join(show_rel(c) for c in st.cons) or '; '.join(st.opaque) or 'true', show(need0)),
                                   tu.fn_loc(f))
@@ -1222,6 +1317,77 @@ def check_no_cached_buffer_state(ctx, tu, seen):
     return n
 
 
+def check_external_accessors(ctx, tu, seen):
+    """R-C15-1 for free functions of the networking namespace that take a BufferReader / BufferWriter /
+    FixedBufferWriter by reference and touch its cursor or buffer directly (typed fast paths)"""
+    R = 'R-C15-1'
+    n = 0
+    for f in sorted(tu.functions.values(), key=lambda x: (x['f'], x['l'])):
+        if f['dep'] or f.get('rec') or tu.cfg(f) is None or not f['q'].startswith(NET):
+            continue
+        objs = [p for p in f.get('params', []) if re.sub(r'\bconst\s+|&', '', p['ct']).strip() in
+                (NET + 'BufferReader', NET + 'BufferWriter', NET + 'FixedBufferWriter')]
+        if len(objs) != 1:
+            continue
+        p = objs[0]
+        touches = any(x.get('kind') == 'MemberExpr' and x.get('name') in ('cursor', 'buffer') and tu.kids(x) and
+                      tu.ref_decl(tu.kids(x)[0]) == p['id'] for x in tu.walk(tu.body(f)))
+        if not touches:
+            continue
+        sig = (f['q'], f['fty'], tu.fn_file(f))
+        if sig in seen:
+            continue
+        inst = '%s(%s)' % (short(f['q']), ', '.join(short(bare_type(q_['ct'])) for q_ in f['params']))
+        keybase = '%s|%s' % (tu.fn_file(f), inst)
+        rec = [r for r in tu.records.values() if r['q'] == re.sub(r'\bconst\s+|&', '', p['ct']).strip()]
+        if not rec:
+            continue
+        c0 = Poly.atom(('field', 'cursor0'))
+        cap = Poly.atom(('sym', 'capacity'))
+        s0 = St({'cursor': c0}, cap)
+        s0.inv = [c0 - cap]
+        eng = BufEngine(tu, f, objparam=p['id'], objrec=rec[0])
+        try:
+            outs = eng.run(s0)
+        except Undecided as u:
+            if 'not modelled' in str(u) and any(tu.callee_fn(x) is None or tu.cfg(tu.callee_fn(x)) is None
+                                                for x in tu.walk(tu.body(f)) if x.get('kind') == 'CXXMemberCallExpr'
+                                                and tu.sd(x).get('rec') == rec[0]['q']):
+                continue       # the members it calls have no body in this unit: decided in the unit that defines them
+            seen.add(sig)
+            ctx.undecided(R, inst, str(u), tu.fn_loc(f))
+            continue
+        seen.add(sig)
+        n += 1
+        for kind, st, rv in outs:
+            label = '%s [path %s]' % (inst, '->'.join('B%d' % b for b in st.trace))
+            if kind == 'throw':
+                continue
+            good = True
+            for e in [e for e in st.events if e[0] == 'memcpy']:
+                _, dst, src, ln, nid, gen, bsz = e
+                for side in (dst, src):
+                    if is_ptr(side) and side[1] == 'buf':
+                        if not check_access(ctx, tu, f, st, (side, ln, nid, gen, bsz), R, label, keybase, 'copy'):
+                            good = False
+            for e in [e for e in st.events if e[0] in ('view', 'retptr')]:
+                ptr, ln = (e[1], e[2]) if e[0] == 'view' else (e[1], None)
+                if ln is not None and not check_access(ctx, tu, f, st, (ptr, ln, e[3], e[4], e[5]), R, label, keybase, 'view'):
+                    good = False
+            cur = st.fields.get('cursor')
+            if isinstance(cur, Poly) and not st.opaque and not st.wrap:
+                wit = small_model(list(st.cons) + [(c0 - cap, '<='), (cap - cur + 1, '<=')])
+                if wit is not None and good:
+                    ctx.violation(R, label, 'on return cursor == %s can exceed the buffer size, e.g. for %s'
+                                  % (show(cur), ', '.join('%s = %d' % (atom_name(a), v_) for a, v_ in
+                                                          sorted(wit.items(), key=lambda kv: repr(kv[0])))), tu.fn_loc(f),
+                                  key='%s|%s|cursor-leaves-buffer' % (R, keybase), path=path_text(tu, tu.cfg(f), st))
+                    good = False
+            if good:
+                ctx.ok(R, label, 'every access through the reader / writer argument stays inside its buffer', tu.fn_loc(f))
+    return n
+
+
 TRANSFER_FNS = [
     (NET + 'BufferReader::read', 'read', 'rkcommon/networking/DataStreaming.cpp'),
     (NET + 'FixedBufferWriter::write', 'write', 'rkcommon/networking/DataStreaming.cpp'),
@@ -1254,6 +1420,9 @@ def check_buffers(ctx, tus):
     n1 += check_accessors(ctx, tus['rkcommon/networking/DataStreaming.cpp'])
     ctx.floor('R-C15-1', n1, 18, 'paths of read/getView/write/reserve/BufferWriter::write + 4 accessors + 2 constructors: 22 on the pinned tree')
     ctx.floor('R-C15-4', n4, 1, 'WriteSizeCalculator::write')
+    seen_ext = set()
+    for tu in tus.values():
+        n1 += check_external_accessors(ctx, tu, seen_ext)
     seen = set()
     nm = 0
     for tu in tus.values():
@@ -1342,6 +1511,8 @@ def subst_items(items, root):
             out.append(('DATA', subst_path(it[1], root), subst_poly(it[2], root), it[3], it[4]))
         elif k == 'RESIZE':
             out.append(('RESIZE', subst_path(it[1], root), subst_poly(it[2], root), it[3]))
+        elif k == 'APPEND':
+            out.append(('APPEND', subst_path(it[1], root), subst_poly(it[2], root), it[3]))
         elif k == 'REPEAT':
             out.append(('REPEAT', subst_poly(it[1], root), subst_path(it[2], root), subst_items(it[3], root), it[4]))
         elif k == 'COUNT':
@@ -1363,6 +1534,8 @@ def show_items(items):
             out.append('DATA(%s,%s)' % (show_path(it[1]), show(it[2])))
         elif k == 'RESIZE':
             out.append('RESIZE(%s,%s)' % (show_path(it[1]), show(it[2])))
+        elif k == 'APPEND':
+            out.append('APPEND(%s,%s)' % (show_path(it[1]), show(it[2])))
         elif k == 'REPEAT':
             out.append('REPEAT(%s,[%s])' % (show(it[1]), ' '.join(show_items(it[3]))))
         elif k == 'COUNT':
@@ -1592,8 +1765,13 @@ class SigBuilder:
             return items
         if k in ('NullStmt',):
             return items
+        if n.get('id') in env.get('skip_stmt', ()) or (k in ('ExprWithCleanups',) and tu.strip(n) is not None and
+                                                      tu.strip(n).get('id') in env.get('skip_stmt', ())):
+            return items
         if k == 'DeclStmt':
             for vd in n.get('inner', ()):
+                if isinstance(vd, dict) and vd.get('id') in env.get('skip_decl', ()):
+                    continue
                 if not isinstance(vd, dict) or vd.get('kind') != 'VarDecl':
                     raise Undecided('declaration `%s` in a stream operator' % vd.get('kind'))
                 init = tu.kids(vd)
@@ -1720,6 +1898,39 @@ class SigBuilder:
                             bp = self.path_of(obj, env)
                             if bp is not None:
                                 conts.add(bp)
+            if not conts:
+                # element-at-a-time form: { T x; buf >> x; c.push_back(x); }
+                pushes = []
+                for x in tu.walk(body):
+                    if x.get('kind') == 'CXXMemberCallExpr' and tu.sd(x).get('q', '').split('::')[-1] in ('push_back', 'emplace_back'):
+                        sd, obj, args = tu.call_parts(x)
+                        bp = self.path_of(obj, env) if obj is not None else None
+                        a = tu.strip(args[0], casts=True) if len(args) == 1 else None
+                        hops = 0
+                        while a is not None and hops < 4:
+                            hops += 1
+                            if a.get('kind') == 'CallExpr' and tu.sd(a).get('q') in ('std::move', 'std::forward') and tu.call_parts(a)[2]:
+                                a = tu.strip(tu.call_parts(a)[2][0], casts=True)
+                                continue
+                            if a.get('kind') == 'CXXConstructExpr' and len(tu.kids(a)) == 1:
+                                a = tu.strip(tu.kids(a)[0], casts=True)
+                                continue
+                            break
+                        did = a.get('referencedDecl', {}).get('id') if a is not None and a.get('kind') == 'DeclRefExpr' else None
+                        vd = tu.node(did) if did else None
+                        if bp is not None and vd is not None and vd.get('kind') == 'VarDecl' and \
+                                any(y.get('id') == did for y in tu.walk(body)):
+                            pushes.append((x, bp, did))
+                if len(pushes) == 1:
+                    px, base, did = pushes[0]
+                    p_el = ('elem', base)
+                    env2['elems'] = dict(env['elems'])
+                    env2['elems'][did] = p_el
+                    env2['skip_decl'] = set(env.get('skip_decl', ())) | {did}
+                    env2['skip_stmt'] = set(env.get('skip_stmt', ())) | {px['id']}
+                    env['ptype'][p_el] = tu.node(did).get('type', {}).get('qualType', '')
+                    sub = self.block(body, env2)
+                    return [('APPEND', base, count, tu.loc(px)), ('REPEAT', count, base, sub, tu.loc(n))]
             if len(conts) != 1:
                 raise Undecided('for-loop body does not index exactly one streamed container with the loop variable')
             base = conts.pop()
@@ -2027,8 +2238,23 @@ def _pair_flat(W, R, problems, bind, sizes, aw, ar):
     emptied = []          # containers the writer emitted with length 0 and the reader did not visit
     i = j = 0
     while True:
-        while j < len(R) and R[j][0] == 'RESIZE':
-            sizes[R[j][1]] = rsub(R[j][2])
+        while j < len(R) and R[j][0] in ('RESIZE', 'APPEND'):
+            if R[j][0] == 'APPEND':
+                # elements are appended one by one: the destination ends up with (what it held before) + count elements
+                have0 = sizes.get(R[j][1])
+                if have0 is None:
+                    problems.append(('no-clear', 'the reader appends the %s elements it reads to `%s` without emptying it first: '
+                                     'a destination that is not empty (reused message object, receive loop) keeps its old '
+                                     'elements in front of the ones read%s' % (show(rsub(R[j][2])), show_path(R[j][1]), cond_text()),
+                                     R[j][3]))
+                    return
+                if norm(have0) != Poly.const(0):
+                    problems.append(('dest-size', 'the reader appends to `%s`, which it sized to %s before'
+                                     % (show_path(R[j][1]), show(have0)), R[j][3]))
+                    return
+                sizes[R[j][1]] = rsub(R[j][2])
+            else:
+                sizes[R[j][1]] = rsub(R[j][2])
             j += 1
         # a block / repeat of length 0 is not on the wire
         if i < len(W) and W[i][0] in ('DATA', 'REPEAT') and norm(W[i][2] if W[i][0] == 'DATA' else W[i][1]) == Poly.const(0) and \
@@ -2108,7 +2334,11 @@ def _pair_flat(W, R, problems, bind, sizes, aw, ar):
                 return
         i += 1
         j += 1
-    while j < len(R) and R[j][0] == 'RESIZE':
+    while j < len(R) and R[j][0] in ('RESIZE', 'APPEND'):
+        if R[j][0] == 'APPEND' and sizes.get(R[j][1]) is None:
+            problems.append(('no-clear', 'the reader appends to `%s` without emptying it first%s' % (show_path(R[j][1]), cond_text()),
+                             R[j][3]))
+            return
         sizes[R[j][1]] = rsub(R[j][2])
         j += 1
     if i < len(W) or j < len(R):
